@@ -19,9 +19,11 @@ functions, so that the correspondence check can drive the branches the defaults 
 * `writeRuleX` / `itsToGmlX` / `smartToGmlX`  the GML writer with `explicit_hydrogen=True`
                         (context graph expanded by `h_to_explicit`, context edges written).
 
-Everything here is executable model code tied to the working tree by the correspondence only
-(no property theorem quantifies over these options); the two `example`s at the end pin the new
-definitions to the proved ones on a concrete input.
+Everything here is executable model code tied to the working tree by the correspondence; what the
+options promise is proved in `SynKitProofs/ReprOptLemmas.lean` / `Props/C10.lean` (namespace
+`SynKit.ReprOpt`: `hToExplicitG_totalH`, `_all`, `_restores`, `implicitHydrogenReindex_relabel`,
+`molToGraphOpt_default`, `_useIdx`, `_drop`, `itsToGmlX_false`, `itsToGmlX_roundtrip_partial`).  The two
+`example`s at the end pin the new definitions to the proved ones on a concrete input.
 -/
 namespace SynKit.ReprOpt
 open SynKit SynKit.Repr SynKit.Gml
